@@ -10,6 +10,8 @@
 import PgVerif.Proofs.ScalarsRT
 import PgVerif.Proofs.ScalarsBits
 import PgVerif.Proofs.ScalarsTime
+import PgVerif.Proofs.ScalarsRange
+import PgVerif.Proofs.ScalarsMoney
 namespace PgVerif.Props.C04
 open PgVerif PgVerif.Model.Scalars PgVerif.Spec.Scalars PgVerif.Txt PgVerif.Proofs.ScalarsRT
 
@@ -93,6 +95,23 @@ theorem C04_float8 (ext : Ext) (b : Nat) (h : (Val.float8 b).WF) : RoundTrip ext
   show decodeType ext (le 8 b) 701 = .ok (.f64 b)
   rw [decodeType_701 ext _ (by simp)]
   simp only [decFloat8, u64, uN_le1 8 b hn, ok_bind, pure_eq_ok]
+
+/-- money: every amount with |cents| < 10¹⁵ is shown as the exact decimal `$[-]units.cc`.  The tool
+computes `float64(cents)/100` and prints it with `%.2f`; the proof shows that the two binary64 roundings
+(modelled exactly: round to nearest even) and the final decimal rounding cannot move the value by half
+a cent in this range (`moneyText_exact`). -/
+theorem C04_money (ext : Ext) (c : Int) (h : (Val.money c).WF) : RoundTrip ext (.money c) := by
+  have h' : -(10 ^ 15 : Int) < c ∧ c < (10 ^ 15 : Int) := by simpa [Val.WF, Val.wf] using h
+  have hin : inI 64 c = true := by
+    simp only [inI, Bool.and_eq_true, decide_eq_true_eq, Nat.reduceSub, Int.reducePow]
+    have := h'.1; have := h'.2
+    simp only [Int.reducePow] at *
+    omega
+  show decodeType ext (le 8 (ofSigned 64 c)) 790 = _
+  rw [decodeType_790 ext _ (by simp)]
+  simp only [decMoney, i64, uN_le1 8 _ (ofSigned_lt 64 c), ok_bind, pure_eq_ok, toSigned_ofSigned64 c hin]
+  rw [Proofs.Money.moneyText_exact c h'.1 h'.2]
+  simp only [view, List.append_assoc]
 
 /-! ### text-like, bytea -/
 
@@ -418,5 +437,149 @@ theorem C04_timestamp (ext : Ext) (tz : Bool) (t : TsV) (h : (Val.timestamp tz t
   · show decodeType ext (le 8 (ofSigned 64 t.stored)) 1184 = _
     rw [decodeType_1184 ext _ (by simp)]
     exact decTimestamp_enc t h
+
+/-! ### ranges -/
+
+/-- int4range, int8range, daterange, tsrange, tstzrange: for all 32 combinations of the flag bits
+(EMPTY, LB_INC, UB_INC, LB_INF, UB_INF) and all well-formed bounds, the decoded text is PostgreSQL's
+range_out form: `empty`, or bracket by the inclusive flags, each present bound as its element type
+shows it, nothing for an infinite bound.  Includes the 8-byte-element ranges whose upper bound was
+looked for at the wrong offset (A15 repaired). -/
+theorem C04_range (ext : Ext) (ty : RangeTy) (hty : ty ≠ .num) (flags : Nat) (lo hi : Bound)
+    (h : (Val.range ty flags lo hi).WF) : RoundTrip ext (.range ty flags lo hi) := by
+  have h' : flags < 32 ∧ (rangeHasLower flags = false ∨ lo.wf ty = true) ∧ (rangeHasUpper flags = false ∨ hi.wf ty = true) := by
+    simpa [Val.WF, Val.wf, and_assoc] using h
+  unfold RoundTrip
+  show decodeType ext (enc (.range ty flags lo hi)) ty.oid = _
+  have hne : 1 ≤ (enc (.range ty flags lo hi)).length := by
+    show 1 ≤ (le 4 ty.oid ++ (if rangeHasLower flags then encBoundAs ty lo else []) ++
+      (if rangeHasUpper flags then encBoundAs ty hi else []) ++ [UInt8.ofNat flags]).length
+    simp only [List.length_append, le_length, List.length_cons, List.length_nil]; omega
+  rw [decodeType_range ext _ ty.oid hne (by cases ty <;> decide) (by cases ty <;> decide)]
+  exact decodeRange_rt ext ty hty flags lo hi h'.1
+    (fun hl => by rcases h'.2.1 with h0 | h0; · rw [hl] at h0; cases h0
+                  · exact h0)
+    (fun hu => by rcases h'.2.2 with h0 | h0; · rw [hu] at h0; cases h0
+                  · exact h0)
+
+/-- non-vacuity: the witness of A15, `[-5000000000,5000000000)::int8range`, is a well-formed value -/
+example : (Val.range .int8 2 (.int (-5000000000)) (.int 5000000000)).WF := by decide
+
+/-- numrange, partial: the values without a finite bound — `empty` and the ranges whose bounds are both
+infinite, with every flag byte — are shown right.  Missing: every numrange with a finite bound; the
+bound is printed as `?` (A16, recorded finding), see `C04_numrange_finding`. -/
+theorem C04_numrange_partial (ext : Ext) (flags : Nat) (lo hi : Bound) (h : (Val.range .num flags lo hi).WF)
+    (hk : kfNumRange (.range .num flags lo hi) = false) : RoundTrip ext (.range .num flags lo hi) := by
+  have hf : flags < 32 := by
+    have h2 : (decide (flags < 32) && (!rangeHasLower flags || lo.wf .num) && (!rangeHasUpper flags || hi.wf .num)) = true := h
+    simp only [Bool.and_eq_true, decide_eq_true_eq] at h2
+    exact h2.1.1
+  have hk' : rangeHasLower flags = false ∧ rangeHasUpper flags = false := by simpa [kfNumRange] using hk
+  have hfb : (UInt8.ofNat flags).toNat = flags := u8_toNat flags (by omega)
+  unfold RoundTrip
+  show decodeType ext (le 4 3906 ++ (if rangeHasLower flags then encBoundAs .num lo else []) ++
+      (if rangeHasUpper flags then encBoundAs .num hi else []) ++ [UInt8.ofNat flags]) 3906 = .ok (.str (rangeText flags lo hi))
+  simp only [hk'.1, hk'.2, Bool.false_eq_true, if_false, List.append_nil]
+  rw [decodeType_range ext _ 3906 (by simp) (by decide) (by decide)]
+  unfold decodeRange
+  have hlen : ¬ (le 4 3906 ++ [UInt8.ofNat flags]).length < 5 := by simp
+  rw [if_neg hlen, idx_last]
+  simp only [ok_bind, hfb, mask1]
+  cases h0 : flags.testBit 0
+  · have h3 : flags.testBit 3 = true := by simpa [rangeHasLower, h0] using hk'.1
+    have h4 : flags.testBit 4 = true := by simpa [rangeHasUpper, h0] using hk'.2
+    simp only [Bool.false_eq_true, if_false, if_true, decodeNumericRange, mask2, mask4, mask8, mask16, h3, h4,
+      rangeText, h0, hk'.1, hk'.2, pure_eq_ok, List.append_nil, List.append_assoc]
+  · simp only [if_true, pure_eq_ok, rangeText, h0]
+    rfl
+
+/-- the numrange defect on a concrete stored value: `[1,3)` is shown as `[?,?)`. -/
+theorem C04_numrange_finding (ext : Ext) :
+    (Val.range .num 2 (.num 1) (.num 3)).WF ∧ ¬ RoundTrip ext (.range .num 2 (.num 1) (.num 3)) := by
+  refine ⟨by decide, ?_⟩
+  intro h
+  have hm : decodeType ext (enc (.range .num 2 (.num 1) (.num 3))) 3906 = .ok (.str [91, 63, 44, 63, 41]) := rfl
+  unfold RoundTrip at h
+  rw [show (Val.range .num 2 (.num 1) (.num 3)).typeOid = 3906 from rfl, hm] at h
+  injection h with h
+  injection h with h
+  revert h; decide
+
+/-- the path defect (A17: wire layout instead of the stored layout, pinned by TestDecodePath /
+TestDecodePolygon; recorded finding) on a concrete stored value: the open path `[(1,2)]` is shown as `()`.
+Every stored path / polygon is in this class, so there is no round-trip theorem for these two types. -/
+theorem C04_path_finding (ext : Ext) :
+    (Val.path false [(0x3FF0000000000000, 0x4000000000000000)]).WF ∧
+    decodeType ext (enc (.path false [(0x3FF0000000000000, 0x4000000000000000)])) 602 = .ok (.arr [.str [40, 41]]) ∧
+    view (.path false [(0x3FF0000000000000, 0x4000000000000000)]) =
+      .arr [.str [91, 40], .f64 0x3FF0000000000000, .str [44], .f64 0x4000000000000000, .str [41, 93]] := by
+  exact ⟨by decide, rfl, rfl⟩
+
+/-- non-vacuity of the per-type hypotheses: boundary values of many types are well-formed, and the partial
+theorems for tid / pg_lsn / numrange have values inside their hypotheses -/
+example : (Val.int2 (-32768)).WF ∧ (Val.int8 9223372036854775807).WF ∧ (Val.xid 3000000000).WF ∧
+    (Val.money (-999999999999999)).WF ∧ (Val.date (.fin 9999 12 31)).WF ∧ (Val.date (.fin 1 1 1)).WF ∧
+    (Val.date (.fin 2000 2 29)).WF ∧ (Val.date .negInf).WF ∧ (Val.bit true [true, false, true, true, false]).WF ∧
+    (Val.text .text [0xC3, 0xA9]).WF ∧ (Val.name (asc "pg_class")).WF ∧ (Val.time 86400000000).WF ∧
+    (Val.uuid (zeros 16)).WF ∧ (Val.inet false false [10, 0, 0, 0] 24).WF ∧
+    ((Val.tid 65537 7).WF ∧ kfTid (.tid 65537 7) = false) ∧
+    ((Val.pglsn (7 * 2 ^ 32 + 7)).WF ∧ kfPgLsn (.pglsn (7 * 2 ^ 32 + 7)) = false) ∧
+    ((Val.range .num 24 (.num 1) (.num 1)).WF ∧ kfNumRange (.range .num 24 (.num 1) (.num 1)) = false) ∧
+    (Val.range .tstz 6 (.ts (.fin 1999 12 31 23 59 59 500000)) (.ts .posInf)).WF := by decide
+
+/-! ### all types at once -/
+
+/-- C04 for every abstract value: every well-formed stored value of every supported scalar type decodes
+to the value a correct tool must show, except inside the four recorded classes (pg_lsn and tid with unequal
+halves, numrange with a finite bound, path / polygon), and — for json — given that the JSON library
+parses the stored text to the document.  Partial exactly by those hypotheses. -/
+theorem C04_all_partial (ext : Ext) (v : Val) (h : v.WF)
+    (hk : kfPgLsn v = false ∧ kfTid v = false ∧ kfNumRange v = false ∧ kfPath v = false)
+    (hjson : ∀ d ws, v = .json d ws → ext.jsonUnmarshal (d.render ws) = some d.view) : RoundTrip ext v := by
+  cases v with
+  | bool b => exact C04_bool ext b
+  | char c => exact C04_char ext c
+  | name s => exact C04_name ext s h
+  | int2 i => exact C04_int2 ext i h
+  | int4 i => exact C04_int4 ext i h
+  | int8 i => exact C04_int8 ext i h
+  | oid n => exact C04_oid ext n h
+  | xid n => exact C04_xid ext n h
+  | cid n => exact C04_cid ext n h
+  | tid b o => exact C04_tid_partial ext b o h hk.2.1
+  | float4 b => exact C04_float4 ext b h
+  | float8 b => exact C04_float8 ext b h
+  | money c => exact C04_money ext c h
+  | text ty s => exact C04_text ext ty s h
+  | json d ws => exact C04_json_partial ext d ws (hjson d ws rfl) (render_length d ws)
+  | bytea b => exact C04_bytea ext b h
+  | bit vb bits => exact C04_bit ext vb bits h
+  | date d => exact C04_date ext d h
+  | time us => exact C04_time ext us h
+  | timetz us z => exact C04_timetz ext us z h
+  | timestamp tz t => exact C04_timestamp ext tz t h
+  | interval m d us => exact C04_interval ext m d us h
+  | uuid b => exact C04_uuid ext b h
+  | pglsn v => exact C04_pglsn_partial ext v h hk.1
+  | macaddr b => exact C04_macaddr ext b h
+  | macaddr8 b => exact C04_macaddr8 ext b h
+  | inet c v6 a bits => exact C04_inet ext c v6 a bits h
+  | point p => exact C04_point ext p h
+  | lseg a b => exact C04_lseg ext a b h
+  | box a b => exact C04_box ext a b h
+  | line a b c => exact C04_line ext a b c h
+  | circle c r => exact C04_circle ext c r h
+  | path c pts => exact absurd hk.2.2.2 (by simp [kfPath])
+  | polygon bb pts => exact absurd hk.2.2.2 (by simp [kfPath])
+  | range ty flags lo hi =>
+    by_cases hty : ty = .num
+    · subst hty; exact C04_numrange_partial ext flags lo hi h hk.2.2.1
+    · exact C04_range ext ty hty flags lo hi h
+
+/-- non-vacuity of the hypotheses: a timestamp beyond year 2262, a negative interval, a `+05:30` zone and an
+IPv6 /64 are well-formed values outside every recorded class -/
+example : (Val.timestamp false (.fin 2300 1 1 0 0 0 0)).WF ∧ (Val.interval (-14) (-3) (-14706000000)).WF ∧
+    (Val.timetz 52200000000 (-19800)).WF ∧ (Val.inet true true (zeros 15 ++ [1]) 64).WF ∧
+    kfPgLsn (.timestamp false (.fin 2300 1 1 0 0 0 0)) = false := by decide
 
 end PgVerif.Props.C04
